@@ -69,6 +69,9 @@ pub enum Input {
     Payload { bytes: Vec<u8> },
     /// payload check through the sentence path: `chars` cut at `cuts` into fragments
     SentPayload { chars: Vec<u8>, fill: u8, cuts: Vec<usize> },
+    /// payload check on a *used* parser: `prefix` is fed first, then the payload travels in one
+    /// sentence numbered (n, k, id) with decoding on
+    SentAfter { prefix: Vec<Line>, n: u8, k: u8, id: Option<u8>, chars: Vec<u8>, fill: u8 },
     /// `messages::unarmor(data, fill)`
     Unarmor { data: Vec<u8>, fill: usize },
     /// `ShipType::parse(code)` / `u8::from`
@@ -89,6 +92,7 @@ impl Input {
             Input::Interleave { a, b, order } => json!({"kind": "interleave", "a": lines(a), "b": lines(b), "order": order}),
             Input::Payload { bytes } => json!({"kind": "payload", "hex": hex(bytes), "len": bytes.len()}),
             Input::SentPayload { chars, fill, cuts } => json!({"kind": "sentpayload", "hex": hex(chars), "text": esc(chars), "fill": fill, "cuts": cuts}),
+            Input::SentAfter { prefix, n, k, id, chars, fill } => json!({"kind": "sentafter", "prefix": lines(prefix), "n": n, "k": k, "id": id, "hex": hex(chars), "text": esc(chars), "fill": fill}),
             Input::Unarmor { data, fill } => json!({"kind": "unarmor", "hex": hex(data), "text": esc(data), "fill": fill}),
             Input::ShipCode { code } => json!({"kind": "shipcode", "code": code}),
             Input::Stream { bytes } => json!({"kind": "stream", "hex": hex(bytes), "text": crate::util::clip(&esc(bytes), 2000)}),
@@ -114,6 +118,14 @@ impl Input {
                 chars: hexf(v)?,
                 fill: v.get("fill")?.as_u64()? as u8,
                 cuts: v.get("cuts")?.as_array()?.iter().map(|x| x.as_u64().map(|y| y as usize)).collect::<Option<Vec<usize>>>()?,
+            },
+            "sentafter" => Input::SentAfter {
+                prefix: lines(v.get("prefix")?)?,
+                n: v.get("n")?.as_u64()? as u8,
+                k: v.get("k")?.as_u64()? as u8,
+                id: v.get("id").and_then(|x| x.as_u64()).map(|x| x as u8),
+                chars: hexf(v)?,
+                fill: v.get("fill")?.as_u64()? as u8,
             },
             "unarmor" => Input::Unarmor { data: hexf(v)?, fill: v.get("fill")?.as_u64()? as usize },
             "shipcode" => Input::ShipCode { code: v.get("code")?.as_u64()? as u8 },
